@@ -54,6 +54,12 @@ CLAIMED = {
              "with_automatic_layout (symbolic spacing / filling fractions).", ref="§6 C12",
              note="Trusted base: z3 (QF_NRA), symx, squared-form sqrt proxy, scipy pdist/squareform contract shims. A band of 1e-9 around each "
              "distance threshold is unspecified (binary64 roots vs exact reference) except for atoms on one axis, where thresholds are decided exactly."),
+ "C19": dict(text="Bounded symbolic model checking of canonical trap numbering: RegisterLayout built from 2-3 symbolic points (1e-7 decimal grid, so "
+             "near-ties at the 1e-6 rounding precision are in the domain) in permuted orders gives identical, ascending sorted coordinates; "
+             "define_register places qubits on their traps; DetuningMap weights follow the sorted traps and the qubit weight map is order "
+             "independent; accessors return copies.", ref="§6 C19",
+             note="Trusted base: z3, symx, D-mode fixed-point rounding, lexsort/unique/isclose contract shims. static_hash/== (SHA-256) and coordinate "
+             "look-ups by float tuples are outside the claim."),
  "C02": dict(text="Bounded symbolic model checking of the real _Schedule operations: one operation from an arbitrary state "
              "satisfying the representation invariant (inductive step), all times/durations/fall times/limits as solver variables; "
              "exhaustive over paths and values inside the stated slot-count/clock bounds.", ref="§6 C02, §5 L1"),
